@@ -82,6 +82,11 @@ def Cfg.emptyRead (c : Cfg) : EmptyRead :=
 /-- reading such a record through a handle returns an error -/
 def Cfg.emptyDecodeFails (c : Cfg) : Bool := c.emptyRead == .fails
 
+/-- … and which error: bzip2's reader reports `io.ErrUnexpectedEOF`, everything else an error of
+    no particular class -/
+def Cfg.emptyReadErr (c : Cfg) : Err :=
+  if c.encryption == [] && c.compression == n!"bzip2" then .unexpectedEOF else .other
+
 /-- restoring it through the archive interface returns an error -/
 def Cfg.emptyRestoreFails (c : Cfg) : Bool := c.emptyRead != .ok
 
